@@ -473,7 +473,7 @@ class Exec:
         if 'promoted' in k:
             return ('promoted', k['promoted'])
         if 'bits' in k:
-            return ('const', ty['s'], int(k['bits'], 16), k.get('unev'))
+            return ('const', ty['s'], int(k['bits'], 16), None)   # `K` and `5` are the same value: the name is dropped
         if 'str' in k:
             return ('str', k['str'])
         if 'bytes' in k:
